@@ -5,22 +5,27 @@ against it through try_mutant.sh, and files it under /verif/seeded/<Cxx>-<mi>/ w
 import json, os, shutil, subprocess, sys
 prop, mi = sys.argv[1], sys.argv[2]
 extra = sys.argv[3:]
-src = "/tmp/mut/%s.out/%s" % (prop, mi)
-wt = "/tmp/mut/%s" % prop
+base = os.environ.get("MUTBASE", "/tmp/mut")
+tag = os.environ.get("MUTTAG", "")
+src = "%s/%s.out/%s" % (base, prop, mi)
+wt = "%s/%s" % (base, prop)
 v = subprocess.run(["/verif/tools/verify_mutant.sh", src, wt], stdout=subprocess.PIPE, stderr=subprocess.STDOUT, text=True)
 print(v.stdout.strip().splitlines()[-2:] if v.stdout.strip() else v.stdout)
 if v.returncode != 0:
     print("NOT KEPT (not confirmed)")
     sys.exit(1)
 checks = [prop] + extra
-r = subprocess.run(["/verif/tools/try_mutant.sh", os.path.join(src, "patch.diff")] + checks, stdout=subprocess.PIPE, stderr=subprocess.STDOUT, text=True)
+env = dict(os.environ)
+if os.environ.get("USE_WORKTREE"):
+    env["MUT_REPO"] = wt      # run the checks against the scratch worktree instead of /repo
+r = subprocess.run(["/verif/tools/try_mutant.sh", os.path.join(src, "patch.diff")] + checks, stdout=subprocess.PIPE, stderr=subprocess.STDOUT, text=True, env=env)
 print(r.stdout)
 res = {}
 for ln in r.stdout.splitlines():
     p = ln.split()
     if len(p) >= 2 and p[0] in checks:
         res[p[0]] = dict(result=p[1], detail=" ".join(p[2:])[:200])
-dst = "/verif/seeded/%s-%s" % (prop, mi)
+dst = "/verif/seeded/%s-%s%s" % (prop, tag, mi)
 os.makedirs(dst, exist_ok=True)
 for f in os.listdir(src):
     shutil.copy(os.path.join(src, f), dst)
